@@ -54,9 +54,12 @@ class State:
 
 
 class Paths:
-    def __init__(self, F, body, reader=None, local_prefix=None, max_paths=400):
+    def __init__(self, F, body, reader=None, local_prefix=None, max_paths=400, loop_iteration=False):
+        """loop_iteration=True: the (single) stream-reading loop of the function is analysed for one iteration — paths end with
+        ('continue',) at the end of its body, ('break',) at a break, or a return value"""
         self.F = F
         self.body = body
+        self.loop_iteration = loop_iteration
         t = body["tir"]
         self.reader_ids = set()
         for p in t["params"]:
@@ -163,6 +166,8 @@ class Paths:
                     _, sy, val, pos = v
                     t = st2.constrain(sy, ("eq", val) if pos else ("ne", frozenset([val])))
                     f = st2.constrain(sy, ("ne", frozenset([val])) if pos else ("eq", val))
+                elif v[0] == "lit" and isinstance(v[1], bool):
+                    t, f = (st2, None) if v[1] else (None, st2)      # a condition whose value this path already fixed
                 else:
                     txt = tir.pretty(c)[:80]
                     t, f = st2.guard(txt, True), st2.guard(txt, False)
@@ -192,12 +197,19 @@ class Paths:
                 yield st2, ("opaque", n)
         elif k in ("Loop", "For"):
             reads = [x for x in tir.walk(n) if x.get("k") in ("MethodCall", "Call") and (self.is_stream_call(x))]
+            if reads and self.loop_iteration and k == "Loop":
+                for st2, v in self.ev(n["body"], st):
+                    self.done.append((st2, ("continue",)))
+                return
             if reads:
                 yield st.with_token(("loop", tir.sp(n))), ("opaque", n)
             else:
                 yield st, ("opaque", n)
         elif k == "Break":
-            yield st, ("unit",)
+            if self.loop_iteration:
+                self.done.append((st, ("break",)))
+            else:
+                yield st, ("unit",)
         elif k == "Repeat":
             yield st, ("opaque", n)
         else:
@@ -388,6 +400,17 @@ class Paths:
                 yield st2, rv
             elif m == "map" and rv[0] in ("ok", "some") and strip(n["args"][0]).get("k") == "Closure":
                 yield st2, (rv[0], ("mapped", rv[1], n["args"][0]))
+            elif m == "map" and len(n["args"]) == 1 and strip(n["args"][0]).get("k") == "Path" and (strip(n["args"][0]).get("dk") or "").startswith("Ctor"):
+                # `res.map(Value::String)`: the payload wrapped by a constructor, the error passed on
+                ctor = strip(n["args"][0]).get("path")
+                if rv[0] in ("ok", "some"):
+                    yield st2, (rv[0], ("ctor", ctor, (rv[1],)))
+                elif rv[0] == "okerr":
+                    yield st2, ("okerr", ("ctor", ctor, (rv[1],)))
+                elif rv[0] in ("callres", "payload"):
+                    yield st2, ("okerr", ("ctor", ctor, (("payload", rv),)))
+                else:
+                    yield st2, ("opaque", n)
             elif m in ("into", "to_owned", "clone", "to_string", "as_mut_slice", "as_slice", "as_mut", "as_ref"):
                 yield st2, rv
             else:
